@@ -60,8 +60,8 @@ def r04a(ck, fb):
     w = ck.main(LIM + 'write', 'R04a')
     if not w:
         return
-    dw = util.sites_on_field(w, r'AsyncWriteExt::write_all$', 'data_file')
-    iw = util.sites_on_field(w, r'AsyncWriteExt::write_all$', 'index_file')
+    dw = util.sites_on_field(w, r'AsyncWriteExt::write_all$', 'data_file', deep=1)
+    iw = util.sites_on_field(w, r'AsyncWriteExt::write_all$', 'index_file', deep=1)
     ck.floor('R04a', 'data writes', len(dw), 1)
     ck.floor('R04a', 'index writes', len(iw), 1)
     for s in iw:
